@@ -243,3 +243,20 @@ REG.contract('C07', O, 'OptionStore.sanitize_dir_option_value', params={'self': 
              opaque_attrs={'name': Str, 'parts': Obj}, opaque={'is_absolute': ([], Bool), 'relative_to': ([Str], Obj), 'as_posix': ([], Str)},
              opaque_classes=['PurePosixPath'], floor=2,
              note='a value given for a builtin option is stored as given unless the option is a DIRECTORY option (name ending in dir) and the value is not empty: only then is it read as a path (normalised, made relative to the prefix); the empty string stays empty')
+
+# ---- the classification helpers the merge contracts treat as uninterpreted predicates of the key (obj_is_projopt, obj_is_compopt):
+# what each of them IS, for the real functions (round nine).  A compiler option is one whose NAME has a prefix, up to the first '_',
+# that is a language of the store — whatever its subproject and machine; project / module options are the declared ones.
+ClsS = Struct('OptionStore', 'mesonbuild.options:OptionStore', project_options=Set(Obj), module_options=Set(Obj), all_languages=Set(Str))
+REG.contract('C07', O, 'OptionStore.is_project_option', variant='real', params={'self': ClsS, 'key': Obj},
+             ensures=['result == (key in self.project_options)'], result=Bool, floor=1,
+             note='a project option is a key declared in an option file of its (sub)project: membership in the table of declared project options, nothing else')
+REG.contract('C07', O, 'OptionStore.is_module_option', variant='real', params={'self': ClsS, 'key': Obj},
+             ensures=['result == (key in self.module_options)'], result=Bool, floor=1, note='a module option is a key a module has declared')
+REG.contract('C07', O, 'OptionStore.is_compiler_option', variant='real', params={'self': ClsS, 'key': Obj},
+             ensures=["result == ('_' in attr_name(key) and attr_name(key).split('_')[0] in self.all_languages)"],
+             result=Bool, opaque_attrs={'name': Str}, floor=2,
+             note='a compiler option: the part of the NAME in front of the first underscore is one of the languages in use (c_args, cpp_std, ...); a name without an underscore never is')
+REG.contract('C07', O, 'OptionStore.is_backend_option', variant='real', params={'self': ClsS, 'key': Obj}, requires=['not isinst(key, str)'],
+             ensures=["result == attr_name(key).startswith('backend_')"], result=Bool, opaque_attrs={'name': Str}, floor=1,
+             note='a backend option is recognised by the prefix backend_ of its name')
